@@ -316,3 +316,64 @@ def _verdict(rule, key, fate, b, t, what):
                  fact={'fate': sorted(str(x) for x in fate)}, expected='observed / returned', nontrivial=False)
     else:
         yield Ob(rule, key, None, '%s could not be followed' % what, where, fact={'fate': sorted(str(x) for x in fate)}, expected='observed / returned', nontrivial=False)
+
+
+
+def rule_failures_do_not_pass(ctx, cfg='prod-all'):
+    """Looking at the wrapper of a fallible value is an observation, not a discard - unless the *failure* is the outcome that lets the function go on:
+    `if recomputed.is_ok_and(|c| c != proof.challenge) { refuse }` accepts when the recomputation itself failed.  In every function reachable from
+    the BBS entry points: where the verdict of `Result::is_ok` / `is_ok_and` / `is_err` / `is_err_and` is branched on, the side that includes the
+    failure (false for is_ok*, true for is_err*) does not reach a success return of that function."""
+    import rf_gatesets
+    from rf_gates import resolve_fn
+    from flow import walk, accept_blocks
+    prog, eng = ctx.prog(cfg), ctx.eng(cfg)
+    n, seen, bad, sites = 0, set(), [], 0
+    for e in rf_gatesets.ENTRIES['bbs']:
+        entry = resolve_fn(prog, e)
+        n += 1
+        for fr in walk(eng, entry.path, include_closures=False):
+            if fr.path in seen or not fr.path.startswith(('bbsplus::', 'utils::')):
+                continue
+            seen.add(fr.path)
+            b, fd = fr.body, fr.fd
+            acc = {bi for bi, kind, extra in accept_blocks(fd)}
+            if not acc:
+                continue
+            for bi, t in b.calls():
+                cal = t.get('callee') or ''
+                short = cal.split('::')[-1]
+                if 'Result' not in cal or short not in ('is_ok', 'is_ok_and', 'is_err', 'is_err_and'):
+                    continue
+                sites += 1
+                # the switch that reads the verdict (through `!`)
+                l, neg = t['dst']['l'], False
+                target = None
+                for _ in range(4):
+                    for x in range(b.n):
+                        tt = b.blocks[x]['term']
+                        if tt['k'] == 'switch' and tt['discr'].get('k') in ('copy', 'move') and tt['discr']['pl']['l'] == l:
+                            target = x
+                    if target is not None:
+                        break
+                    nxt = [l2 for l2, ds in fd.defs.items() for kd, _b, xx in ds if kd == 'assign' and xx['rv'].get('k') == 'unop' and xx['rv'].get('op') == 'Not'
+                           and xx['rv']['a'].get('k') in ('copy', 'move') and xx['rv']['a']['pl']['l'] == l]
+                    if not nxt:
+                        break
+                    l, neg = nxt[0], not neg
+                if target is None:
+                    continue
+                tt = b.blocks[target]['term']
+                zero = [bb for v, bb in tt['targets'] if v == '0']
+                if not zero:
+                    continue
+                false_side, true_side = zero[0], tt['otherwise']
+                failure_outcome = short in ('is_err', 'is_err_and')          # the verdict that includes "the operation failed"
+                if neg:
+                    failure_outcome = not failure_outcome
+                side = true_side if failure_outcome else false_side
+                if any(a in b.reachable(side) or a == side for a in acc):
+                    bad.append({'in': fr.path.split('::')[-1], 'line': t.get('line'), 'test': short})
+    yield Ob('RF-Y', 'bbsplus#failures-do-not-pass', not bad, 'no function goes on to a success return because a fallible operation failed', '',
+             fact={'entries': n, 'functions': len(seen), 'verdicts_branched_on': sites, 'failures_that_count_as_passing': bad[:6]}, expected='none')
+    yield Ob('RF-Y', 'bbsplus#failures-do-not-pass-entries', n >= 8, 'entry points examined', '', fact=n, expected='>= 8', nontrivial=False)
